@@ -1,10 +1,11 @@
-\* open finding F-06h: a manual update issued while Close compacts the run's file is acknowledged and lost
+\* a manual update issued while Close compacts the run's file, with the lock protocol of the fix of F-06h
 CONSTANTS R = 2
   N = 1
   Find = TRUE
+  Lock = TRUE
   WithUpdate = TRUE
   Relist = TRUE
   MaxRelist = 3
 SPECIFICATION Spec
-INVARIANTS C06_UpdateIsKept
+INVARIANTS C06_UpdateIsKept C06_QueryLinearizable
 CHECK_DEADLOCK FALSE
